@@ -69,4 +69,19 @@ def programs():
     add("len-offset-array", [length("n", "char", offset="1"), array("xs", "short", length="n"), field("after", "char")])
     add("encoded", [chunked([field("a", "encoded_string"), brk(), field("b", "encoded_string", length="4", padded="true"), field("c", "encoded_string")])])
     add("enum-array-switch", [array("es", "E1", length="2"), field("k", "E2"), switch("k", [case("Big", [array("more", "E3")]), case("7", [field("z", "byte")])])])
+    # order / number of declarations
+    late = struct("LateThing", [field("v", "short"), field("w", "string", length="2", padded="true")])
+    late_enum = enum("LateKind", "char", [("None", 0), ("Some", 1), ("Many", 2)])
+    add("use-before-def", [field("k", "LateKind"), field("t", "LateThing"), array("ts", "LateThing", length="2"),
+                           switch("k", [case("Some", [field("one", "LateThing")]), case("Many", [array("many", "LateThing")])])], "struct:net", [late, late_enum])
+    add("many-cases", [field("k", "char"), switch("k", [case("1", [field("a", "char")]), case("2", []), case("3", [field("c", "string")]),
+                                                          case("4", [field("d", "P")]), case("5", [field("e", "short", optional="true")]),
+                                                          case(None, [field("z", "three")], default=True)])])
+    add("many-fields", [field(f"f{chr(97 + i)}", t) for i, t in enumerate(["char", "short", "three", "int", "byte", "bool", "E1", "E2", "E3", "P", "V", "O", "char", "short"])]
+        + [field("tail", "string")])
+    add("shared-struct", [field("one", "F"), array("two", "F", length="2"), array("rest", "F")])
+    add("none-member-switch", [field("k", "E1"), switch("k", [case("None", [field("n", "char")]), case("B", [])])])
+    add("dummy-only-packet", [dummy("short", "0")], "packet:net/server")
+    add("bool-array", [length("n", "char"), array("flags", "bool", length="n"), array("more", "bool:short")])
+    add("offset-padded-encoded", [length("n", "char", offset="-1"), field("s", "encoded_string", length="n", padded="true"), field("t", "encoded_string", length="3", padded="true")])
     return out
